@@ -701,7 +701,7 @@ impl FK {
 }
 
 #[derive(Clone, Debug)]
-struct Field {
+struct Fld {
     kind: FK,
     off: usize,
     len: usize,
@@ -717,7 +717,7 @@ struct Layout {
     branch_off: Option<usize>,
     lock_time: u32,
     expiry: Option<u32>,
-    fields: Vec<Field>,
+    fields: Vec<Fld>,
     /// start offset of every element the walker stepped over (truncation points of interest)
     bounds: Vec<usize>,
     end: usize,
@@ -735,7 +735,7 @@ impl Layout {
 struct Wk<'a> {
     b: &'a [u8],
     pos: usize,
-    fields: Vec<Field>,
+    fields: Vec<Fld>,
     bounds: Vec<usize>,
 }
 
@@ -766,7 +766,7 @@ impl<'a> Wk<'a> {
     fn amount(&mut self, kind: FK) -> Option<i64> {
         let s = self.b.get(self.pos..self.pos + 8)?;
         let v = i64::from_le_bytes(s.try_into().unwrap());
-        self.fields.push(Field {
+        self.fields.push(Fld {
             kind,
             off: self.pos,
             len: 8,
@@ -778,7 +778,7 @@ impl<'a> Wk<'a> {
     }
     fn count(&mut self, kind: FK) -> Option<u64> {
         let (v, used) = ref_read_compact(&self.b[self.pos..], false).ok()?;
-        self.fields.push(Field {
+        self.fields.push(Fld {
             kind,
             off: self.pos,
             len: used,
@@ -1175,7 +1175,16 @@ pub fn check_tx_bytes(branch_selector: u8, bytes: &[u8]) -> Result<TxObs, Fail> 
     let mut out = vec![];
     match catch(|| tx.write(&mut out)) {
         Err(p) => vfail!(format!("tx-write-panic:{}", panic_site(&p)), "write of an accepted transaction panicked: {p}; input {}", hx(consumed)),
-        Ok(Err(e)) => vfail!("accepted-but-unwritable", "Transaction::read accepted (v{version}, header branch {:?}, parameter {branch:?}) but write failed: {e}; input {}", tx.consensus_branch_id(), hx(consumed)),
+        Ok(Err(e)) => {
+            // v6 has exactly two Orchard-protocol slots (orchard_v3 / ironwood_v3); a v6 header that
+            // names a pre-NU6.3 branch makes read build an older-version bundle that write refuses.
+            let sig = if version == 6 && tx.consensus_branch_id() != BranchId::Nu6_3 && tx.orchard_bundle().is_some() {
+                "v6-orchard-bundle-under-pre-nu6.3-branch-accepted-but-unwritable"
+            } else {
+                "accepted-but-unwritable"
+            };
+            vfail!(sig, "Transaction::read accepted (v{version}, header branch {:?}, parameter {branch:?}) but write failed: {e}; input {}", tx.consensus_branch_id(), hx(consumed))
+        }
         Ok(Ok(())) => {}
     }
     let reser_identical = out == consumed;
@@ -1186,15 +1195,19 @@ pub fn check_tx_bytes(branch_selector: u8, bytes: &[u8]) -> Result<TxObs, Fail> 
         Ok(t) => t,
     };
     vensure_eq!(pos3, out.len(), "reserialized-not-fully-consumed", "position after parsing write() output");
+    // A txid change is reported after the remaining checks so that the search continues behind it.
+    let mut deferred: Option<Fail> = None;
     if tx3.txid() != tx.txid() {
-        vfail!(
+        deferred = Some(Fail::new(
             classify_reser_mismatch(consumed),
-            "accepted input has txid {} but its re-serialisation parses to txid {} (v{version}); input {} ; written {}",
-            hex::encode(txid),
-            hex::encode(tx3.txid().as_ref()),
-            hx(consumed),
-            hx(&out)
-        );
+            format!(
+                "accepted input has txid {} but its re-serialisation parses to txid {} (v{version}); input {} ; written {}",
+                hex::encode(txid),
+                hex::encode(tx3.txid().as_ref()),
+                hx(consumed),
+                hx(&out)
+            ),
+        ));
     }
     vensure!(
         tx3.auth_commitment().as_bytes() == tx.auth_commitment().as_bytes(),
@@ -1211,6 +1224,13 @@ pub fn check_tx_bytes(branch_selector: u8, bytes: &[u8]) -> Result<TxObs, Fail> 
         other => vfail!("reserialization-not-a-fixed-point", "second write failed: {:?}", other.map(|r| r.map_err(|e| e.to_string()))),
     }
     vensure!(out2 == out, "reserialization-not-a-fixed-point", "write(read(write(tx))) != write(tx); input {}", hx(consumed));
+    if let Some(f) = deferred {
+        return Err(f);
+    }
+    // Stronger than the fixed-point demand of the property (DESIGN "false-alarm risk"): asserted
+    // because calibration over all mutation classes and seeds shows that, apart from the recorded
+    // findings, every accepted byte string IS the serialisation of its value (canonical parser).
+    vensure!(reser_identical, "accepted-noncanonical-encoding", "accepted v{version} input differs from its re-serialisation at offset {}; input {} ; written {}", first_diff_offset(consumed, &out), hx(consumed), hx(&out));
     Ok(TxObs {
         accepted: true,
         consumed: pos,
@@ -1305,6 +1325,14 @@ struct MutStats {
     widen: u64,
     amount_oor: u64,
     truncations: u64,
+    known: u64,
+}
+
+static CTX: std::sync::OnceLock<std::sync::Arc<Ctx>> = std::sync::OnceLock::new();
+
+/// True iff `signature` is listed as a known finding for C03 (prints KNOWN-FINDING once, counts the hit).
+fn known_hit(signature: &str) -> bool {
+    CTX.get().map(|c| c.known_hit(signature)).unwrap_or(false)
 }
 
 /// Runs one mutated input through the byte oracle and the expectation attached to the mutation.
@@ -1318,7 +1346,18 @@ fn eval_tx_mutation(sel: u8, base: &[u8], base_txid: &[u8; 32], l: &Layout, m: &
         Mutation::Widen { field, .. } | Mutation::SetCount { field, .. } | Mutation::SetAmount { field, .. } => format!("{m:?} on {:?}", l.fields[*field]),
         _ => format!("{m:?}"),
     };
-    let obs = check_tx_bytes(sel, &mutated).map_err(|f| Fail::new(f.signature, format!("after mutation {what} of a valid {}-byte encoding: {}", base.len(), f.msg)))?;
+    let obs = match check_tx_bytes(sel, &mutated) {
+        Ok(o) => o,
+        Err(f) => {
+            // a listed known finding: count it and continue with the remaining mutants of the case
+            if known_hit(&f.signature) {
+                st.mutants += 1;
+                st.known += 1;
+                return Ok(());
+            }
+            return Err(Fail::new(f.signature, format!("after mutation {what} of a valid {}-byte encoding: {}", base.len(), f.msg)));
+        }
+    };
     st.mutants += 1;
     if obs.accepted {
         st.accepted += 1;
@@ -1369,6 +1408,11 @@ fn eval_header_mutation(base: &[u8], base_hash: &[u8; 32], l: &Layout, m: &Mutat
     match expectation(l, m) {
         Expect::Reject(sig) => {
             st.must_reject += 1;
+            match m {
+                Mutation::Widen { .. } => st.widen += 1,
+                Mutation::Truncate(_) => st.truncations += 1,
+                _ => {}
+            }
             vensure!(!obs.accepted, format!("header-{sig}"), "mutation {m:?} of a valid header was ACCEPTED (consumed {} of {}); input {}", obs.consumed, mutated.len(), hx(&mutated));
         }
         Expect::AcceptSame => {
@@ -1391,6 +1435,7 @@ fn mut_obs(obs: Obs, st: &MutStats) -> Obs {
         .count("trailing-bytes-accepted-same", st.accept_same)
         .count("other-mutations-accepted", st.general_accepted)
         .count("accepted-reserialization-differs-from-input", st.reser_differs)
+        .count("known-finding-inputs", st.known)
 }
 
 // ---------------------------------------------------------------------------------------------
@@ -1740,12 +1785,16 @@ fn arb_vout(boundary_weight: u32) -> impl Strategy<Value = Vec<OutSpec>> {
     ]
 }
 
-fn arb_shielded_count(boundary_weight: u32) -> impl Strategy<Value = u16> {
-    prop_oneof![20 => 0u16..=3, 3 => 4u16..=9, boundary_weight => 252u16..=254]
+fn arb_shielded_count(boundary_weight: u32, min: u16) -> BoxedStrategy<u16> {
+    if boundary_weight == 0 {
+        prop_oneof![30 => min..=2u16, 2 => 3u16..=4].boxed()
+    } else {
+        prop_oneof![300 => min..=3u16, 40 => 4u16..=9, boundary_weight => 252u16..=254].boxed()
+    }
 }
 
 fn arb_sapling(boundary_weight: u32) -> impl Strategy<Value = SapSpec> {
-    (arb_shielded_count(boundary_weight), arb_shielded_count(boundary_weight), arb_balance(), any::<u64>(), any::<bool>()).prop_map(|(n_spends, n_outputs, balance, seed, shared_anchor)| SapSpec {
+    (arb_shielded_count(boundary_weight, 0), arb_shielded_count(boundary_weight, 0), arb_balance(), any::<u64>(), any::<bool>()).prop_map(|(n_spends, n_outputs, balance, seed, shared_anchor)| SapSpec {
         n_spends,
         n_outputs,
         balance,
@@ -1755,30 +1804,24 @@ fn arb_sapling(boundary_weight: u32) -> impl Strategy<Value = SapSpec> {
 }
 
 fn arb_orchard(boundary_weight: u32) -> impl Strategy<Value = OrchSpec> {
-    (
-        prop_oneof![20 => 1u16..=3, 3 => 4u16..=7, boundary_weight => 252u16..=254],
-        arb_balance(),
-        any::<u64>(),
-        0u8..8,
-        0u8..6,
-        proptest::bool::weighted(0.1),
-    )
-        .prop_map(|(n_actions, balance, seed, flags, proof_mode, identity_cv)| OrchSpec {
-            n_actions,
-            balance,
-            seed,
-            flags,
-            proof_mode,
-            identity_cv,
-        })
+    (arb_shielded_count(boundary_weight, 1), arb_balance(), any::<u64>(), 0u8..8, 0u8..6, proptest::bool::weighted(0.1)).prop_map(|(n_actions, balance, seed, flags, proof_mode, identity_cv)| OrchSpec {
+        n_actions,
+        balance,
+        seed,
+        flags,
+        proof_mode,
+        identity_cv,
+    })
 }
 
 fn arb_pair() -> impl Strategy<Value = u8> {
     prop_oneof![2 => Just(0u8), 1 => Just(1u8), 3 => 2u8..=10, 4 => 11u8..=15, 4 => Just(16u8)]
 }
 
-/// `bw`: weight of CompactSize-boundary element counts (0 disables them).
-fn arb_shape(bw: u32, shielded_bw: u32) -> impl Strategy<Value = ShapeSpec> {
+/// `bw`: weight (of ~20) of 252..254-element transparent vectors; `shielded_bw`: weight (of ~340)
+/// of 252..254 shielded elements, 0 = none and at most 4 elements; `p`: presence probability of
+/// each shielded bundle.
+fn arb_shape(bw: u32, shielded_bw: u32, p: f64) -> impl Strategy<Value = ShapeSpec> {
     (
         arb_pair(),
         prop_oneof![Just(1u32), Just(2u32), Just(3u32), Just(0x7fff_ffffu32), 1u32..=0x7fff_ffff],
@@ -1786,10 +1829,10 @@ fn arb_shape(bw: u32, shielded_bw: u32) -> impl Strategy<Value = ShapeSpec> {
         arb_u32_extreme(),
         arb_vin(bw),
         arb_vout(bw),
-        proptest::option::weighted(0.3, (1u8..=3, any::<u64>())),
-        proptest::option::weighted(0.5, arb_sapling(shielded_bw)),
-        proptest::option::weighted(0.5, arb_orchard(shielded_bw)),
-        proptest::option::weighted(0.5, arb_orchard(shielded_bw)),
+        proptest::option::weighted(p * 0.6, (1u8..=3, any::<u64>())),
+        proptest::option::weighted(p, arb_sapling(shielded_bw)),
+        proptest::option::weighted(p, arb_orchard(shielded_bw)),
+        proptest::option::weighted(p, arb_orchard(shielded_bw)),
     )
         .prop_map(|(pair, sprout_version, lock_time, expiry, vin, vout, sprout, sapling, orchard, ironwood)| ShapeSpec {
             pair,
@@ -1852,6 +1895,12 @@ fn check_structured(data: TransactionData<Authorized>, js_raw: &[Vec<u8>]) -> Ca
         other => vfail!("harness-walker-mismatch", "layout walker does not cover the reference serialisation: {:?}", other.map(|l| (l.vk, l.end, bytes.len()))),
     };
     vensure_eq!(lay.lock_time, tx.lock_time(), "harness-walker-mismatch", "lock_time located by the walker");
+    if let Some(e) = lay.expiry {
+        vensure_eq!(e, u32::from(tx.expiry_height()), "harness-walker-mismatch", "expiry height located by the walker");
+    }
+    if let Some(b) = lay.branch {
+        vensure_eq!(b, u32::from(branch), "harness-walker-mismatch", "branch id located by the walker");
+    }
     // read back
     let (r, pos) = parse_tx(&bytes, branch).map_err(|p| Fail::new(format!("tx-read-panic:{}", panic_site(&p)), format!("Transaction::read panicked on write() output: {p}; bytes {}", hx(&bytes))))?;
     let parsed = match r {
@@ -1938,6 +1987,10 @@ fn check_structured(data: TransactionData<Authorized>, js_raw: &[Vec<u8>]) -> Ca
 fn normalise(data: TransactionData<Authorized>) -> TransactionData<Authorized> {
     let vk = vk_of(data.version());
     let branch = data.consensus_branch_id();
+    if vk == VK::Sprout {
+        // pre-Overwinter encodings have no expiry height field: the well-formed value is 0
+        return TransactionData::from_parts(data.version(), branch, data.lock_time(), 0u32.into(), data.transparent_bundle().cloned(), None, None, None);
+    }
     data.map_bundles::<Authorized>(
         |t| t,
         |s| {
@@ -2026,8 +2079,8 @@ fn make_base(s: &ShapeSpec) -> Result<Base, Fail> {
     })
 }
 
-const LOCATED_CAP: usize = 96;
-const TRUNC_CAP: usize = 64;
+const LOCATED_CAP: usize = 64;
+const TRUNC_CAP: usize = 40;
 
 /// Base + every located-field mutation (sampled above a cap) + truncation at every element
 /// boundary (sampled above a cap) + all header swaps.
@@ -2114,4 +2167,764 @@ fn tx_bytes_random(case: &(ShapeSpec, Vec<u32>, Vec<u8>)) -> CaseResult {
     Ok(mut_obs(obs, &st))
 }
 
-// @@NEXT@@
+// ---------------------------------------------------------------------------------------------
+// Block headers
+// ---------------------------------------------------------------------------------------------
+
+#[derive(Clone, Debug)]
+struct HeaderSpec {
+    version: i32,
+    seed: u64,
+    time: u32,
+    bits: u32,
+    sol_len: u32,
+    trailing: u16,
+    sels: Vec<u32>,
+}
+
+fn arb_header() -> impl Strategy<Value = HeaderSpec> {
+    (
+        prop_oneof![Just(4i32), Just(0i32), Just(-1i32), Just(i32::MIN), Just(i32::MAX), any::<i32>()],
+        any::<u64>(),
+        arb_u32_extreme(),
+        arb_u32_extreme(),
+        prop_oneof![
+            6 => proptest::sample::select(vec![0u32, 1, 36, 68, 100, 252, 253, 254, 255, 256, 400, 1344]),
+            1 => Just(65_535u32),
+            1 => Just(65_536u32),
+            6 => 0u32..=2000,
+        ],
+        prop_oneof![Just(0u16), Just(1u16), 0u16..=300],
+        proptest::collection::vec(any::<u32>(), 12),
+    )
+        .prop_map(|(version, seed, time, bits, sol_len, trailing, sels)| HeaderSpec {
+            version,
+            seed,
+            time,
+            bits,
+            sol_len,
+            trailing,
+            sels,
+        })
+}
+
+fn check_header(s: &HeaderSpec) -> CaseResult {
+    let mk = || BlockHeaderData {
+        version: s.version,
+        prev_block: BlockHash(fill_arr::<32>(s.seed ^ 1)),
+        merkle_root: fill_arr::<32>(s.seed ^ 2),
+        final_sapling_root: fill_arr::<32>(s.seed ^ 3),
+        time: s.time,
+        bits: s.bits,
+        nonce: fill_arr::<32>(s.seed ^ 4),
+        solution: fill(s.seed ^ 5, s.sol_len as usize),
+    };
+    let want = header_fields(&mk());
+    vensure_eq!(want.len(), 140 + ref_compact_vec(s.sol_len as u64).len() + s.sol_len as usize, "harness-header-length", "reference header length");
+    let h = match catch(|| mk().freeze()) {
+        Ok(Ok(h)) => h,
+        Ok(Err(e)) => vfail!("header-freeze-error", "freeze failed: {e}"),
+        Err(p) => vfail!(format!("header-freeze-panic:{}", panic_site(&p)), "freeze panicked: {p}"),
+    };
+    let mut bytes = vec![];
+    match catch(|| h.write(&mut bytes)) {
+        Ok(Ok(())) => {}
+        other => vfail!("header-write-error", "write failed: {:?}", other.map(|r| r.map_err(|e| e.to_string()))),
+    }
+    vensure!(bytes == want, "header-write-differs-from-reference", "write() differs from the reference serialisation at offset {}", first_diff_offset(&bytes, &want));
+    vensure!(h.hash().0 == sha256d(&bytes), "header-hash-not-sha256d-of-write", "freeze(): hash {} but sha256d(write()) = {}", hex::encode(h.hash().0), hex::encode(sha256d(&bytes)));
+    // exact bytes, then bytes followed by trailing data
+    let obs = check_header_bytes(&bytes)?;
+    vensure!(obs.accepted && obs.consumed == bytes.len(), "header-read-rejects-own-encoding", "read(write(header)): {obs:?}");
+    vensure!(obs.hash == h.hash().0, "header-roundtrip-hash-mismatch", "hash changes across write→read");
+    let (r, _) = parse_header(&bytes).map_err(|p| Fail::new("header-read-panic", p))?;
+    let back = r.map_err(|e| Fail::new("header-read-rejects-own-encoding", e.to_string()))?;
+    let orig = mk();
+    vensure!(
+        back.version == orig.version
+            && back.prev_block == orig.prev_block
+            && back.merkle_root == orig.merkle_root
+            && back.final_sapling_root == orig.final_sapling_root
+            && back.time == orig.time
+            && back.bits == orig.bits
+            && back.nonce == orig.nonce
+            && back.solution == orig.solution,
+        "header-roundtrip-field-mismatch",
+        "a field changes across write→read: {:?} vs {:?}",
+        (back.version, back.time, back.bits, back.solution.len()),
+        (orig.version, orig.time, orig.bits, orig.solution.len())
+    );
+    let lay = walk_header(&bytes).filter(|l| l.end == bytes.len()).ok_or_else(|| Fail::new("harness-walker-mismatch", "header walker"))?;
+    let mut st = MutStats::default();
+    let hash = h.hash().0;
+    eval_header_mutation(&bytes, &hash, &lay, &Mutation::Extend(fill(s.seed ^ 6, s.trailing as usize)), &mut st)?;
+    for m in located_mutations(&lay) {
+        eval_header_mutation(&bytes, &hash, &lay, &m, &mut st)?;
+    }
+    // truncation: all structural boundaries + sampled offsets; single-byte mutations
+    let mut cuts = vec![0usize, 3, 4, 36, 68, 100, 104, 108, 139, 140, bytes.len() - 1];
+    if lay.fields[0].len > 1 {
+        cuts.push(141);
+        cuts.push(140 + lay.fields[0].len);
+    }
+    for k in 0..4 {
+        cuts.push(pick_index(s.sels[k], bytes.len()));
+    }
+    cuts.sort();
+    cuts.dedup();
+    for c in cuts {
+        if c < bytes.len() {
+            eval_header_mutation(&bytes, &hash, &lay, &Mutation::Truncate(c), &mut st)?;
+        }
+    }
+    for k in 4..10 {
+        let off = if k % 2 == 0 { pick_index(s.sels[k], bytes.len()) } else { 140 + (s.sels[k] as usize % lay.fields[0].len) };
+        let val = match s.sels[k] % 5 {
+            0 => 0xfd,
+            1 => 0xfe,
+            2 => 0xff,
+            _ => bytes[off].wrapping_add(1 + (s.sels[k] >> 8) as u8 % 255),
+        };
+        eval_header_mutation(&bytes, &hash, &lay, &Mutation::SetByte { off, val }, &mut st)?;
+    }
+    let obs = Obs::nontrivial()
+        .key(hash64(&bytes))
+        .label_if(is_boundary(s.sol_len as u64), "solution-len-at-compactsize-boundary")
+        .label_if(s.sol_len == 1344, "mainnet-solution-size")
+        .label_if(s.sol_len == 0, "empty-solution")
+        .label_if(s.sol_len >= 253, "solution-len>=253")
+        .label_if(s.trailing > 0, "trailing-bytes");
+    Ok(mut_obs(obs, &st))
+}
+
+// ---------------------------------------------------------------------------------------------
+// encoding_combinators: LOCAL components/zcash_encoding 0.5
+// ---------------------------------------------------------------------------------------------
+
+#[derive(Clone, Debug)]
+struct CombCase {
+    v: u64,
+    elems: Vec<u16>,
+    opt: Option<Vec<u8>>,
+    raw: Vec<u8>,
+    cut: u32,
+}
+
+fn arb_comb_value() -> impl Strategy<Value = u64> {
+    prop_oneof![
+        4 => proptest::sample::select(vec![
+            0u64, 1, 251, 252, 253, 254, 255, 256, 0xfffe, 0xffff, 0x1_0000, 0x1_0001, MAX_COMPACT - 1, MAX_COMPACT, MAX_COMPACT + 1,
+            0xffff_fffe, 0xffff_ffff, 0x1_0000_0000, 0x1_0000_0001, u64::MAX - 1, u64::MAX, 1 << 63,
+        ]),
+        3 => 0u64..=300,
+        2 => 0u64..=0x2_0000,
+        2 => (MAX_COMPACT - 300)..=(MAX_COMPACT + 300),
+        1 => any::<u32>().prop_map(|x| x as u64),
+        1 => any::<u64>(),
+    ]
+}
+
+fn arb_comb() -> impl Strategy<Value = CombCase> {
+    (
+        arb_comb_value(),
+        prop_oneof![
+            6 => proptest::collection::vec(any::<u16>(), 0..=6),
+            1 => proptest::collection::vec(any::<u16>(), 252..=254),
+            1 => proptest::collection::vec(any::<u16>(), 0..=40),
+        ],
+        proptest::option::of(proptest::collection::vec(any::<u8>(), 0..=20)),
+        proptest::collection::vec(prop_oneof![3 => any::<u8>(), 2 => 252u8..=255, 1 => Just(0u8)], 0..=10),
+        any::<u32>(),
+    )
+        .prop_map(|(v, elems, opt, raw, cut)| CombCase { v, elems, opt, raw, cut })
+}
+
+fn rd_u16<R: Read>(r: &mut R) -> std::io::Result<u16> {
+    let mut b = [0u8; 2];
+    r.read_exact(&mut b)?;
+    Ok(u16::from_le_bytes(b))
+}
+
+fn rd_u8<R: Read>(r: &mut R) -> std::io::Result<u8> {
+    let mut b = [0u8; 1];
+    r.read_exact(&mut b)?;
+    Ok(b[0])
+}
+
+macro_rules! nopanic {
+    ($what:expr, $e:expr) => {
+        catch(|| $e).map_err(|p| Fail::new(format!("encoding-panic:{}", panic_site(&p)), format!("{} panicked: {p}", $what)))?
+    };
+}
+
+fn check_combinators(c: &CombCase) -> CaseResult {
+    use zel::{Array, CompactSize, Optional, Vector};
+    let v = c.v;
+    let in_bound = v <= MAX_COMPACT;
+    let enc = ref_compact_vec(v);
+    // --- CompactSize::write (bounded)
+    let mut got = vec![];
+    let r = nopanic!("CompactSize::write", CompactSize::write(&mut got, v as usize));
+    match r {
+        Ok(()) => {
+            vensure!(in_bound, "compactsize-write-bound", "write({v}) succeeded although the value exceeds MAX_COMPACT_SIZE");
+            vensure!(got == enc, "compactsize-write-bytes", "write({v}) = {} want {}", hex::encode(&got), hex::encode(&enc));
+        }
+        Err(_) => vensure!(!in_bound, "compactsize-write-bound", "write({v}) failed although the value is within MAX_COMPACT_SIZE"),
+    }
+    vensure_eq!(CompactSize::serialized_size(v as usize), enc.len(), "compactsize-serialized-size", "serialized_size({v})");
+    // --- CompactSize::read on the canonical encoding
+    let mut cur = Cursor::new(&enc[..]);
+    let r = nopanic!("CompactSize::read", CompactSize::read(&mut cur));
+    match r {
+        Ok(x) => {
+            vensure!(in_bound, "compactsize-read-bound", "read accepted {v} > MAX_COMPACT_SIZE");
+            vensure_eq!(x, v, "compactsize-read-value", "read(canonical({v}))");
+            vensure_eq!(cur.position() as usize, enc.len(), "compactsize-read-consumed", "bytes consumed for {v}");
+        }
+        Err(_) => vensure!(!in_bound, "compactsize-read-bound", "read rejected the canonical encoding of {v} (within the bound)"),
+    }
+    // --- read_t into narrower types
+    macro_rules! rt {
+        ($t:ty) => {{
+            let r: std::io::Result<$t> = nopanic!("CompactSize::read_t", CompactSize::read_t(&enc[..]));
+            let fits = in_bound && <$t>::try_from(v).is_ok();
+            match r {
+                Ok(x) => vensure!(fits && x as u64 == v, "compactsize-read-t", "read_t::<{}>({v}) = {x}", stringify!($t)),
+                Err(_) => vensure!(!fits, "compactsize-read-t", "read_t::<{}>({v}) failed although it fits", stringify!($t)),
+            }
+        }};
+    }
+    rt!(u8);
+    rt!(u16);
+    rt!(u32);
+    rt!(u64);
+    rt!(usize);
+    // --- non-canonical forms and truncations are rejected
+    let mut noncanon = 0u64;
+    for form in (canonical_form(v) + 1)..=3 {
+        let nc = compact_in_form(v, form).unwrap();
+        let r = nopanic!("CompactSize::read", CompactSize::read(&nc[..]));
+        vensure!(r.is_err(), "compactsize-accepts-noncanonical", "read accepted {} as {:?} (minimal form is {})", hex::encode(&nc), r, hex::encode(&enc));
+        let r: std::io::Result<u64> = nopanic!("CompactSize::read_t", CompactSize::read_t(&nc[..]));
+        vensure!(r.is_err(), "compactsize-accepts-noncanonical", "read_t accepted {}", hex::encode(&nc));
+        noncanon += 1;
+    }
+    for cut in 0..enc.len() {
+        let r = nopanic!("CompactSize::read", CompactSize::read(&enc[..cut]));
+        vensure!(r.is_err(), "compactsize-accepts-truncated", "read accepted {} (truncated from {})", hex::encode(&enc[..cut]), hex::encode(&enc));
+    }
+    // --- arbitrary bytes against the reference decoder
+    let mut cur = Cursor::new(&c.raw[..]);
+    let r = nopanic!("CompactSize::read", CompactSize::read(&mut cur));
+    match (r, ref_read_compact(&c.raw, true)) {
+        (Ok(x), Ok((w, used))) => {
+            vensure!(x == w && cur.position() as usize == used, "compactsize-vs-reference", "read({}) = {x} using {} bytes; reference {w} using {used}", hex::encode(&c.raw), cur.position());
+        }
+        (Err(_), Err(_)) => {}
+        (got, want) => vfail!("compactsize-vs-reference", "read({}) = {:?}; reference decoder says {:?}", hex::encode(&c.raw), got.map_err(|e| e.to_string()), want),
+    }
+    // --- Vector
+    let n = c.elems.len();
+    let mut want = ref_compact_vec(n as u64);
+    let body: Vec<u8> = c.elems.iter().flat_map(|e| e.to_le_bytes()).collect();
+    want.extend_from_slice(&body);
+    let mut got = vec![];
+    nopanic!("Vector::write", Vector::write(&mut got, &c.elems, |w, e| w.write_all(&e.to_le_bytes()))).map_err(|e| Fail::new("vector-write", e.to_string()))?;
+    vensure!(got == want, "vector-write-bytes", "Vector::write of {n} elements");
+    let mut got2 = vec![];
+    nopanic!("Vector::write_sized", Vector::write_sized(&mut got2, c.elems.iter(), |w, e| w.write_all(&e.to_le_bytes()))).map_err(|e| Fail::new("vector-write", e.to_string()))?;
+    vensure!(got2 == want, "vector-write-bytes", "Vector::write_sized of {n} elements");
+    if let Some(ne) = nonempty::NonEmpty::from_vec(c.elems.clone()) {
+        let mut got3 = vec![];
+        nopanic!("Vector::write_nonempty", Vector::write_nonempty(&mut got3, &ne, |w, e| w.write_all(&e.to_le_bytes()))).map_err(|e| Fail::new("vector-write", e.to_string()))?;
+        vensure!(got3 == want, "vector-write-bytes", "Vector::write_nonempty of {n} elements");
+    }
+    let mut padded = want.clone();
+    padded.extend_from_slice(&c.raw);
+    let mut cur = Cursor::new(&padded[..]);
+    let back: Vec<u16> = nopanic!("Vector::read", Vector::read(&mut cur, |r| rd_u16(r))).map_err(|e| Fail::new("vector-read-rejects-own-encoding", e.to_string()))?;
+    vensure!(back == c.elems && cur.position() as usize == want.len(), "vector-roundtrip", "Vector::read(write(v)) differs or consumed {} of {}", cur.position(), want.len());
+    let back2: Vec<u16> = nopanic!("Vector::read_collected", Vector::read_collected(&want[..], |r| rd_u16(r))).map_err(|e| Fail::new("vector-read-rejects-own-encoding", e.to_string()))?;
+    vensure!(back2 == c.elems, "vector-roundtrip", "Vector::read_collected");
+    let cut = pick_index(c.cut, want.len());
+    let r: std::io::Result<Vec<u16>> = nopanic!("Vector::read", Vector::read(&want[..cut], |r| rd_u16(r)));
+    vensure!(r.is_err(), "vector-accepts-truncated", "Vector::read accepted the first {cut} of {} bytes", want.len());
+    let pfx = ref_compact_vec(n as u64).len();
+    for form in (canonical_form(n as u64) + 1)..=3 {
+        let mut nc = compact_in_form(n as u64, form).unwrap();
+        nc.extend_from_slice(&body);
+        let r: std::io::Result<Vec<u16>> = nopanic!("Vector::read", Vector::read(&nc[..], |r| rd_u16(r)));
+        vensure!(r.is_err(), "vector-accepts-noncanonical-length", "Vector::read accepted a non-minimal length prefix {}", hex::encode(&nc[..nc.len() - body.len()]));
+        noncanon += 1;
+    }
+    for bad in [n as u64 + 1, MAX_COMPACT + 1] {
+        let mut e = ref_compact_vec(bad);
+        e.extend_from_slice(&body);
+        let r: std::io::Result<Vec<u16>> = nopanic!("Vector::read", Vector::read(&e[..], |r| rd_u16(r)));
+        vensure!(r.is_err(), "vector-accepts-overlong-count", "Vector::read accepted count {bad} over {n} elements");
+    }
+    let bytes8: Vec<u8> = body.clone();
+    vensure_eq!(Vector::serialized_size_of_u8_vec(&bytes8), ref_compact_vec(bytes8.len() as u64).len() + bytes8.len(), "vector-serialized-size", "serialized_size_of_u8_vec");
+    let _ = pfx;
+    // --- Array
+    let mut got = vec![];
+    nopanic!("Array::write", Array::write(&mut got, c.elems.iter(), |w, e| w.write_all(&e.to_le_bytes()))).map_err(|e| Fail::new("array-write", e.to_string()))?;
+    vensure!(got == body, "array-write-bytes", "Array::write of {n} elements");
+    let mut cur = Cursor::new(&body[..]);
+    let back: Vec<u16> = nopanic!("Array::read", Array::read(&mut cur, n, |r| rd_u16(r))).map_err(|e| Fail::new("array-read-rejects-own-encoding", e.to_string()))?;
+    vensure!(back == c.elems && cur.position() as usize == body.len(), "array-roundtrip", "Array::read(write(v))");
+    let r: std::io::Result<Vec<u16>> = nopanic!("Array::read", Array::read(&body[..], n + 1, |r| rd_u16(r)));
+    vensure!(r.is_err(), "array-accepts-truncated", "Array::read of {} elements from {n} succeeded", n + 1);
+    if n > 0 {
+        let mut cur = Cursor::new(&body[..]);
+        let back: Vec<u16> = nopanic!("Array::read_collected", Array::read_collected(&mut cur, n - 1, |r| rd_u16(r))).map_err(|e| Fail::new("array-read", e.to_string()))?;
+        vensure!(back[..] == c.elems[..n - 1] && cur.position() as usize == body.len() - 2, "array-roundtrip", "Array::read of a prefix");
+        let r: std::io::Result<Vec<u16>> = nopanic!("Array::read", Array::read(&body[..body.len() - 1], n, |r| rd_u16(r)));
+        vensure!(r.is_err(), "array-accepts-truncated", "Array::read accepted a truncated last element");
+    }
+    // --- Optional
+    let mut want = vec![];
+    match &c.opt {
+        None => want.push(0),
+        Some(x) => {
+            want.push(1);
+            ref_compact(x.len() as u64, &mut want);
+            want.extend_from_slice(x);
+        }
+    }
+    let mut got = vec![];
+    nopanic!("Optional::write", Optional::write(&mut got, c.opt.as_ref(), |w, x| Vector::write(w, x, |w, b| w.write_all(&[*b])))).map_err(|e| Fail::new("optional-write", e.to_string()))?;
+    vensure!(got == want, "optional-write-bytes", "Optional::write({:?}) = {}", c.opt, hex::encode(&got));
+    let mut cur = Cursor::new(&want[..]);
+    let back: Option<Vec<u8>> = nopanic!("Optional::read", Optional::read(&mut cur, |r| Vector::read(r, |r| rd_u8(r)))).map_err(|e| Fail::new("optional-read-rejects-own-encoding", e.to_string()))?;
+    vensure!(back == c.opt && cur.position() as usize == want.len(), "optional-roundtrip", "Optional::read(write(x))");
+    for cutp in 0..want.len() {
+        let r: std::io::Result<Option<Vec<u8>>> = nopanic!("Optional::read", Optional::read(&want[..cutp], |r| Vector::read(r, |r| rd_u8(r))));
+        vensure!(r.is_err(), "optional-accepts-truncated", "Optional::read accepted {} (truncated from {})", hex::encode(&want[..cutp]), hex::encode(&want));
+    }
+    if let Some(flag) = c.raw.first().copied().filter(|f| *f >= 2) {
+        let mut e = want.clone();
+        e[0] = flag;
+        let r: std::io::Result<Option<Vec<u8>>> = nopanic!("Optional::read", Optional::read(&e[..], |r| Vector::read(r, |r| rd_u8(r))));
+        vensure!(r.is_err(), "optional-accepts-bad-flag", "Optional::read accepted flag byte {flag}");
+    }
+    Ok(Obs::new(is_boundary(v) || (MAX_COMPACT - 1..=MAX_COMPACT + 1).contains(&v) || v > 0xffff_ffff || is_boundary(n as u64))
+        .key(hash64(format!("{c:?}").as_bytes()))
+        .label_if(!in_bound, "above-max-compact-size")
+        .label_if(in_bound, "within-bound")
+        .label_if(n >= 253, "vector-len>=253")
+        .label_if(c.opt.is_some(), "optional-some")
+        .count("noncanonical-forms-rejected", noncanon))
+}
+
+// ---------------------------------------------------------------------------------------------
+// Fixed vectors (regression bases): the repository's test-vector transactions + hand-built edge cases
+// ---------------------------------------------------------------------------------------------
+
+struct FixedVector {
+    name: String,
+    bytes: Vec<u8>,
+    branch: BranchId,
+    txid: Option<[u8; 32]>,
+    auth_digest: Option<[u8; 32]>,
+}
+
+fn fixed_vectors() -> Vec<FixedVector> {
+    let mut out = vec![FixedVector {
+        name: "tx_read_write (mainnet v4)".into(),
+        bytes: vectors::tx_read_write::TX_READ_WRITE.to_vec(),
+        branch: BranchId::Canopy,
+        txid: None,
+        auth_digest: None,
+    }];
+    for (i, v) in vectors::zip_0143::make_test_vectors().into_iter().enumerate() {
+        out.push(FixedVector {
+            name: format!("zip_0143[{i}]"),
+            bytes: v.tx,
+            branch: v.consensus_branch_id,
+            txid: None,
+            auth_digest: None,
+        });
+    }
+    for (i, v) in vectors::zip_0243::make_test_vectors().into_iter().enumerate() {
+        out.push(FixedVector {
+            name: format!("zip_0243[{i}]"),
+            bytes: v.tx,
+            branch: v.consensus_branch_id,
+            txid: None,
+            auth_digest: None,
+        });
+    }
+    for (i, v) in vectors::zip_0244::make_test_vectors().into_iter().enumerate() {
+        out.push(FixedVector {
+            name: format!("zip_0244[{i}]"),
+            bytes: v.tx,
+            branch: BranchId::Nu5,
+            txid: Some(v.txid),
+            auth_digest: Some(v.auth_digest),
+        });
+    }
+    out
+}
+
+/// Hand-picked shapes that must stay covered forever.
+fn regression_shapes() -> Vec<ShapeSpec> {
+    let empty = |pair: u8| ShapeSpec {
+        pair,
+        sprout_version: 2,
+        lock_time: 0,
+        expiry: 0,
+        vin: vec![],
+        vout: vec![],
+        sprout: None,
+        sapling: None,
+        orchard: None,
+        ironwood: None,
+    };
+    let tin = |n: usize, len: u32| -> Vec<InSpec> {
+        (0..n)
+            .map(|i| InSpec {
+                seed: i as u64 * 31 + 7,
+                script_len: len,
+                sequence: u32::MAX,
+                null_prevout: false,
+            })
+            .collect()
+    };
+    let tout = |n: usize, len: u32| -> Vec<OutSpec> {
+        (0..n)
+            .map(|i| OutSpec {
+                value: if i % 2 == 0 { MAX_MONEY } else { 0 },
+                script_len: len,
+                seed: i as u64 * 17 + 3,
+            })
+            .collect()
+    };
+    let orch = |n: u16, flags: u8| OrchSpec {
+        n_actions: n,
+        balance: -MAXM,
+        seed: 99 + n as u64,
+        flags,
+        proof_mode: 0,
+        identity_cv: false,
+    };
+    let mut v = vec![];
+    // every (version, branch) pair with every bundle None
+    for p in 0..PAIRS.len() as u8 {
+        v.push(empty(p));
+    }
+    // Sprout version numbers
+    for sv in [1u32, 2, 3, 0x7fff_ffff] {
+        let mut s = empty(0);
+        s.sprout_version = sv;
+        s.vin = tin(1, 0);
+        s.sprout = Some((2, 5));
+        v.push(s);
+    }
+    // transparent-only at the CompactSize boundaries, every version kind
+    for p in [0u8, 1, 5, 11, 16] {
+        for n in [1usize, 2, 252, 253, 254] {
+            let mut s = empty(p);
+            s.vin = tin(n, 1);
+            s.vout = tout(n, 0);
+            s.lock_time = u32::MAX;
+            s.expiry = u32::MAX;
+            v.push(s);
+        }
+        for len in [0u32, 75, 76, 252, 253, 10_000, 65_535, 65_536] {
+            let mut s = empty(p);
+            s.vin = tin(1, len);
+            s.vout = tout(1, len);
+            v.push(s);
+        }
+    }
+    // shielded boundary counts
+    for (p, ns, no) in [(5u8, 253u16, 0u16), (5, 0, 253), (14, 253, 252), (16, 1, 254), (16, 0, 1), (16, 1, 0)] {
+        let mut s = empty(p);
+        s.sapling = Some(SapSpec {
+            n_spends: ns,
+            n_outputs: no,
+            balance: MAXM,
+            seed: 1234,
+            shared_anchor: false,
+        });
+        v.push(s);
+    }
+    for (p, n) in [(11u8, 253u16), (14, 252), (15, 254), (16, 253)] {
+        let mut s = empty(p);
+        s.orchard = Some(orch(n, 3));
+        v.push(s);
+    }
+    // v6: Orchard + Ironwood with every flag byte; Ironwood alone; Orchard alone
+    for f in 0u8..8 {
+        let mut s = empty(16);
+        s.orchard = Some(orch(2, f));
+        s.ironwood = Some(orch(3, f));
+        v.push(s);
+        let mut s = empty(16);
+        s.ironwood = Some(orch(1, f));
+        v.push(s);
+    }
+    let mut s = empty(16);
+    s.ironwood = Some(orch(253, 7));
+    v.push(s);
+    // pre-NU6.2 Orchard with non-canonical proof sizes
+    for pm in 0u8..6 {
+        let mut s = empty(11);
+        let mut o = orch(2, 3);
+        o.proof_mode = pm;
+        s.orchard = Some(o);
+        v.push(s);
+    }
+    // everything at once
+    for p in [5u8, 10, 11, 15, 16] {
+        let mut s = empty(p);
+        s.vin = tin(2, 107);
+        s.vout = tout(2, 25);
+        s.sprout = Some((1, 77));
+        s.sapling = Some(SapSpec {
+            n_spends: 2,
+            n_outputs: 2,
+            balance: -1,
+            seed: 4321,
+            shared_anchor: false,
+        });
+        s.orchard = Some(orch(2, 3));
+        s.ironwood = Some(orch(2, 7));
+        v.push(s);
+    }
+    v
+}
+
+/// All located mutations + truncation at every element boundary and every 13th offset + header swaps.
+fn exhaustive_mutations(sel: u8, bytes: &[u8], txid: &[u8; 32], lay: &Layout, st: &mut MutStats) -> Result<(), Fail> {
+    for m in located_mutations(lay) {
+        eval_tx_mutation(sel, bytes, txid, lay, &m, st)?;
+    }
+    let mut cuts: Vec<usize> = lay.bounds.clone();
+    cuts.extend((0..bytes.len()).step_by(13));
+    cuts.push(bytes.len() - 1);
+    cuts.sort();
+    cuts.dedup();
+    // cap the work: at most ~240 cuts (~60 on encodings above 64 KiB), spread evenly
+    let cap = if bytes.len() > 65_536 { 60 } else { 240 };
+    let stride = cuts.len().div_ceil(cap).max(1);
+    for (i, c) in cuts.iter().enumerate() {
+        if *c < bytes.len() && (i % stride == 0 || i + 1 == cuts.len()) {
+            eval_tx_mutation(sel, bytes, txid, lay, &Mutation::Truncate(*c), st)?;
+        }
+    }
+    for m in header_mutations(lay) {
+        eval_tx_mutation(sel, bytes, txid, lay, &m, st)?;
+    }
+    eval_tx_mutation(sel, bytes, txid, lay, &Mutation::Extend(vec![0]), st)?;
+    eval_tx_mutation(sel, bytes, txid, lay, &Mutation::Extend(bytes.to_vec()), st)?;
+    Ok(())
+}
+
+fn check_fixed_vector(v: &FixedVector) -> CaseResult {
+    let sel = branch_sel(v.branch);
+    let obs = check_tx_bytes(sel, &v.bytes)?;
+    vensure!(obs.accepted && obs.consumed == v.bytes.len(), "vector-rejected", "{}: {obs:?}", v.name);
+    vensure!(obs.reser_identical, "vector-reserialization-differs", "{}: write(read(vector)) != vector", v.name);
+    if let Some(t) = v.txid {
+        vensure!(obs.txid == t, "vector-txid-mismatch", "{}: txid {} want {}", v.name, hex::encode(obs.txid), hex::encode(t));
+    }
+    if let Some(a) = v.auth_digest {
+        let tx = Transaction::read(&v.bytes[..], v.branch).map_err(|e| Fail::new("vector-rejected", e.to_string()))?;
+        vensure!(tx.auth_commitment().as_bytes() == a, "vector-auth-digest-mismatch", "{}: auth digest", v.name);
+    }
+    let lay = match walk_tx(&v.bytes) {
+        Some(l) if l.end == v.bytes.len() => l,
+        other => vfail!("harness-walker-mismatch", "{}: walker covers {:?} of {} bytes", v.name, other.map(|l| l.end), v.bytes.len()),
+    };
+    let mut st = MutStats::default();
+    exhaustive_mutations(sel, &v.bytes, &obs.txid, &lay, &mut st)?;
+    Ok(mut_obs(Obs::nontrivial().key(hash64(&v.bytes)).label("test-vector").label(vk_label(lay.vk, lay.header & 0x7fff_ffff)), &st))
+}
+
+fn check_regression_shape(s: &ShapeSpec) -> CaseResult {
+    let (data, raws) = build_tx(s);
+    let obs = check_structured(data, &raws)?;
+    let b = make_base(s)?;
+    let mut st = MutStats::default();
+    exhaustive_mutations(b.sel, &b.bytes, &b.txid, &b.lay, &mut st)?;
+    Ok(mut_obs(obs.label("regression-shape"), &st))
+}
+
+/// Evaluates `f(0..n)` on `workers` threads (same stack size and panic capture as vcore's workers).
+fn par_results(n: u64, workers: u32, f: &(impl Fn(u64) -> CaseResult + Sync)) -> Vec<CaseResult> {
+    let next = std::sync::atomic::AtomicU64::new(0);
+    let out: std::sync::Mutex<Vec<Option<CaseResult>>> = std::sync::Mutex::new((0..n).map(|_| None).collect());
+    std::thread::scope(|sc| {
+        for _ in 0..workers.max(1) {
+            std::thread::Builder::new()
+                .stack_size(64 << 20)
+                .spawn_scoped(sc, || loop {
+                    let i = next.fetch_add(1, std::sync::atomic::Ordering::Relaxed);
+                    if i >= n {
+                        break;
+                    }
+                    let r = match catch(|| f(i)) {
+                        Ok(r) => r,
+                        Err(p) => Err(Fail::new(format!("harness-panic:{}", panic_site(&p)), format!("uncaught panic in oracle: {p}"))),
+                    };
+                    out.lock().unwrap()[i as usize] = Some(r);
+                })
+                .expect("spawn");
+        }
+    });
+    out.into_inner().unwrap().into_iter().map(|r| r.expect("evaluated")).collect()
+}
+
+/// Minimal witnesses of the findings recorded in known_findings.json (and of their absence once
+/// fixed): each goes through the plain byte oracle.
+fn witnesses() -> Vec<(&'static str, u8, Vec<u8>)> {
+    let mut v4 = vec![];
+    v4.extend_from_slice(&V4_HEADER.to_le_bytes());
+    v4.extend_from_slice(&V4_VGID.to_le_bytes());
+    v4.extend_from_slice(&[0, 0]); // tx_in_count, tx_out_count
+    v4.extend_from_slice(&[0; 8]); // lock_time, expiry
+    v4.extend_from_slice(&1i64.to_le_bytes()); // valueBalanceSapling = 1
+    v4.extend_from_slice(&[0, 0, 0]); // nSpendsSapling, nOutputsSapling, nJoinSplit
+    let shape = ShapeSpec {
+        pair: 16,
+        sprout_version: 2,
+        lock_time: 0,
+        expiry: 0,
+        vin: vec![],
+        vout: vec![],
+        sprout: None,
+        sapling: None,
+        orchard: Some(OrchSpec {
+            n_actions: 1,
+            balance: 0,
+            seed: 1,
+            flags: 3,
+            proof_mode: 0,
+            identity_cv: false,
+        }),
+        ironwood: None,
+    };
+    let b = make_base(&shape).expect("v6 base");
+    let v6 = apply(&b.bytes, &b.lay, &Mutation::SetBranch(u32::from(BranchId::Nu6_2)));
+    vec![
+        ("v4, no Sapling spends/outputs, valueBalanceSapling = 1", branch_sel(BranchId::Canopy), v4),
+        ("v6 header naming branch NU6.2 with one Orchard action", branch_sel(BranchId::Nu6_3), v6),
+    ]
+}
+
+fn main() {
+    let ctx = Ctx::from_args("C03", "exploration");
+    let _ = CTX.set(ctx.clone());
+    ctx.set_rule(
+        "Structured: (a) repo arb_txdata(branch) over all 11 branches (normalised: v5/v6 Sapling spends share one anchor, Orchard/Ironwood carry the \
+         branch's BundleVersion); (b) harness shapes over all 17 valid (version, branch) pairs incl. v4 and v5 in NU5..NU6.3, Sprout versions 1/2/3/2^31-1, \
+         every None/Some bundle combination, transparent counts 0,1,2,252,253,254, script lengths 0/75/76/252/253/10000/65535/65536, lock_time/expiry \
+         extremes, JoinSplits, Sapling shared/distinct anchors, Orchard/Ironwood with every flag byte and (pre-NU6.2) odd proof sizes; (c) fixed test vectors \
+         (ZIP 143/243/244 + mainnet tx) and hand-picked regression shapes. Non-trivial = >= 2 non-empty bundles or a count/length at a CompactSize boundary; \
+         distinct = hash of the encoding. Bytes: every mutated input is one edit away from a valid encoding (truncation, trailing bytes, single byte, located \
+         CompactSize re-encoded non-minimally / +-1 / MAX+1, located amount out of range, branch id / version header swap); all non-trivial; distinct = hash of \
+         (base, selectors). Counters give mutated inputs and the accepted/rejected split. Headers: generated BlockHeaderData with solution lengths across the \
+         CompactSize forms + the same mutation classes. encoding-combinators: local zcash_encoding 0.5 vs a reference CompactSize.",
+    );
+    ctx.assume("a well-formed v5/v6 transaction has one Sapling anchor shared by all spends (the encoding carries exactly one), and its Orchard/Ironwood bundles carry the BundleVersion that bundle_version_for_branch prescribes for the transaction's branch");
+    ctx.assume("Transaction::read stores the branch parameter for v1-v4 and ignores it for v5+ (documented on fix_consensus_branch_id)");
+    ctx.assume("the parsers read sequentially from a std::io::Cursor, so the cursor position is what they report as consumed; a strict prefix of a fully consumed valid encoding must be rejected and trailing bytes must not change the result");
+    ctx.assume("JoinSplit descriptions are built from harness-authored raw bytes (their ephemeral key, ciphertexts and PHGR proof have no accessor); SHA-256 (sha2) and the curve/field types are shared with the code under test as primitives");
+    ctx.assume("zcash_primitives links the registry zcash_encoding 0.4 (exercised through Transaction::read); the LOCAL components/zcash_encoding 0.5 is checked directly by encoding-combinators");
+    let tier = ctx.tier;
+
+    // (c) fixed vectors and regression shapes
+    let fv = std::sync::Arc::new(fixed_vectors());
+    let rs = std::sync::Arc::new(regression_shapes());
+    let wt = std::sync::Arc::new(witnesses());
+    {
+        let (fv1, fv2, rs1, rs2, wt1, wt2) = (fv.clone(), fv.clone(), rs.clone(), rs.clone(), wt.clone(), wt.clone());
+        let nf = fv.len() as u64;
+        let nr = rs.len() as u64;
+        let eval = move |i: u64| -> CaseResult {
+            if i < nf {
+                check_fixed_vector(&fv1[i as usize])
+            } else if i < nf + nr {
+                check_regression_shape(&rs1[(i - nf) as usize])
+            } else {
+                let (_, sel, bytes) = &wt1[(i - nf - nr) as usize];
+                let o = check_tx_bytes(*sel, bytes)?;
+                Ok(Obs::nontrivial().key(hash64(bytes)).label("finding-witness").label_if(o.accepted, "witness-accepted").label_if(!o.accepted, "witness-rejected"))
+            }
+        };
+        // vcore hands enumeration indices out in chunks of 256, i.e. this short list to a single
+        // worker; the cases are independent and pure, so evaluate them on all workers first.
+        let total = nf + nr + wt.len() as u64;
+        let pre: Option<Vec<CaseResult>> = if ctx.is_replay() { None } else { Some(par_results(total, ctx.workers, &eval)) };
+        ctx.run_enum(
+            "vectors-and-regression-shapes",
+            total,
+            true,
+            move |i| match &pre {
+                Some(v) => v[i as usize].clone(),
+                None => eval(i),
+            },
+            move |i| {
+                if i < nf {
+                    fv2[i as usize].name.clone()
+                } else if i < nf + nr {
+                    format!("{:?}", rs2[(i - nf) as usize])
+                } else {
+                    let (name, sel, bytes) = &wt2[(i - nf - nr) as usize];
+                    format!("witness: {name}; branch parameter {:?}; bytes {}", BRANCHES[*sel as usize], hx(bytes))
+                }
+            },
+        );
+    }
+    ctx.require_min_count("vectors-and-regression-shapes", "noncanonical-compactsize-rejected", 500);
+    ctx.require_min_count("vectors-and-regression-shapes", "out-of-range-amount-rejected", 200);
+
+    ctx.run_prop("encoding-combinators", arb_comb, tier.pick(300_000, 10_000_000), check_combinators);
+    ctx.require_label_fraction("encoding-combinators", "above-max-compact-size", 0.1);
+    ctx.require_label_fraction("encoding-combinators", "within-bound", 0.4);
+
+    ctx.run_prop("block-headers", arb_header, tier.pick(40_000, 1_500_000), check_header);
+    ctx.require_label_fraction("block-headers", "solution-len>=253", 0.3);
+    ctx.require_label_fraction("block-headers", "trailing-bytes", 0.3);
+
+    ctx.run_prop("tx-structured-shapes", || arb_shape(3, 1, 0.5), tier.pick(16_000, 400_000), |s| {
+        let (data, raws) = build_tx(s);
+        check_structured(data, &raws)
+    });
+    for l in ["v1", "v2", "sprout-version>=3", "v3", "v4", "v5", "v6"] {
+        ctx.require_label_fraction("tx-structured-shapes", l, 0.01);
+    }
+    for l in ["bundles>=2", "has-sapling", "has-orchard"] {
+        ctx.require_label_fraction("tx-structured-shapes", l, 0.15);
+    }
+    for l in ["has-ironwood", "has-sprout", "count-at-compactsize-boundary", "transparent-only", "v4-in-nu5+", "v5-in-nu6.3"] {
+        ctx.require_label_fraction("tx-structured-shapes", l, 0.03);
+    }
+    for l in ["all-bundles-none", "transparent-count>=252", "script-len>=253", "ironwood-cross-address-bit"] {
+        ctx.require_label_fraction("tx-structured-shapes", l, 0.005);
+    }
+    ctx.require_label_fraction("tx-structured-shapes", "shielded-count>=252", 0.0015);
+
+    ctx.run_prop_with("tx-structured-repo-arb", arb_repo_case, tier.pick(800, 20_000), 64, |c| check_structured(c.data.clone(), &[]));
+    ctx.require_label_fraction("tx-structured-repo-arb", "has-orchard", 0.1);
+    ctx.require_label_fraction("tx-structured-repo-arb", "has-ironwood", 0.02);
+
+    ctx.run_prop("tx-bytes-located", || (arb_shape(1, 0, 0.35), proptest::collection::vec(any::<u32>(), 16)), tier.pick(4_000, 100_000), tx_bytes_located);
+    ctx.require_min_count("tx-bytes-located", "noncanonical-compactsize-rejected", 50_000);
+    ctx.require_min_count("tx-bytes-located", "out-of-range-amount-rejected", 20_000);
+    ctx.require_min_count("tx-bytes-located", "truncations-rejected", 50_000);
+    ctx.require_min_count("tx-bytes-located", "other-mutations-accepted", 1_000);
+
+    ctx.run_prop(
+        "tx-bytes-random",
+        || (arb_shape(1, 0, 0.35), proptest::collection::vec(any::<u32>(), 16), proptest::collection::vec(any::<u8>(), 1..40)),
+        tier.pick(100_000, 2_500_000),
+        tx_bytes_random,
+    );
+    ctx.require_min_count("tx-bytes-random", "mutated-accepted", 50_000);
+    ctx.require_min_count("tx-bytes-random", "mutated-rejected", 200_000);
+    ctx.finish();
+}
